@@ -11,11 +11,16 @@ p = os.path.join(V, "known_findings.json")
 old = json.load(open(p)) if os.path.exists(p) else {"findings": [], "fixed": []}
 keep = [k for k in old["findings"] if not k["key"].startswith("R-INV|")]
 sc = {n: set(F.canon_of(F.bodies[x]) for x in scopes.scope(F, getattr(scopes, n + "_ENTRIES"))) for n in ("C04", "C12", "C13", "C19")}
-new = []
+new = {}
 for f in inv_f:
     for prop, fns in sc.items():
         if f["fn"] in fns:
-            new.append({"property": prop, "key": "R-INV|%s|%s|%s" % (f["fn"], f["kind"], f["term"]), "n": f["n"], "what": f["what"]})
+            key = "R-INV|%s|%s|%s" % (f["file"], f["kind"], f["nterm"])
+            if (prop, key) in new:
+                new[(prop, key)]["n"] += f["n"]
+            else:
+                new[(prop, key)] = {"property": prop, "key": key, "n": f["n"], "what": f["what"], "in": f["fn"]}
+new = list(new.values())
 old["findings"] = keep + new
 json.dump(old, open(p, "w"), indent=1, sort_keys=True)
 print(len(keep), "hand-written +", len(new), "inventory findings")
